@@ -1,1 +1,3 @@
 void h_send2(void) { NaorPinkasEOTP *self; mpz_srcptr a, b; ios_t *in, *out; NaorPinkasEOTP__Send_interactive_OneOutOfTwo(self, a, b, in, out); }
+void h_choose2(void) { NaorPinkasEOTP *self; size_t sigma; mpz_ptr M; ios_t *in, *out; _Bool r = NaorPinkasEOTP__Choose_interactive_OneOutOfTwo(self, sigma, M, in, out);
+  __CPROVER_assert(!r, "REACHABILITY-CANARY (must fail): the chooser obtains a message"); }
